@@ -539,6 +539,12 @@ ViolCb(sh, ev) ==
           \cup If(Kind(sh, s) = "ping", {<<"C03", "cb_without_ping">>})
           \cup If(Kind(sh, s) = "chan", {<<"C04", "delivery_not_head_of_queue">>})
           \cup If(Kind(sh, s) = "stream", {<<"C10", "stream_item_not_in_order_exactly_once">>}))
+  \* C20: an event carries the readiness of ITS key's registration only: a direction the registration never asked for
+  \* (peer open: no hang-up, which the poller reports in both directions) is the readiness of some other key
+  \cup If(Kind(sh, s) = "comp" /\ ~sh.fuzzy[s] /\ liveOk /\ (ev.sub + 1) \in 1..NCh(sh.decl[s]) /\ ~Pc(sh, s, ev.sub + 1)
+          /\ LET ch == sh.decl[s].children[ev.sub + 1] IN
+                ch.fd = "sock" /\ ((ev.p % 2 = 1 /\ ~WantsR(ch)) \/ (ev.p \div 2 = 1 /\ ~WantsW(ch))),
+          {<<"C20", "readiness_of_another_key_delivered_under_this_key">>})
   \cup If(IsTimer(sh, s) /\ ~sh.dlPending[s] /\ ev.p > sh.batchUs, {<<"C05", "fired_early">>, <<"C01", "timer_cb_without_expiry">>})
   \cup If(IsTimer(sh, s) /\ sh.dlPending[s] /\ sh.armed[s] /\ sh.armLo[s] > sh.batchUs, {<<"C05", "fired_early">>, <<"C01", "timer_cb_without_expiry">>})
   \cup If(IsTimer(sh, s) /\ sh.armed[s] /\ sh.firedArm[s] = sh.armId[s], {<<"C05", "arming_fired_twice">>})
@@ -772,6 +778,16 @@ ViolSnap(sh, ev) ==
                /\ e[1] = x[1] /\ e[2] = x[2] /\ e[3] = x[3] /\ e[4] = x[4] /\ e[1] \notin FuzzyFds(sh)
                /\ (e[5] # x[5] \/ e[6] # x[6]),
           {<<"C20", "kernel_key_differs_from_token">>})
+  \* C16 / C20: ... and the sub-id in that key is the one the child was handed at the last (re)registration of its source:
+  \* sub-ids are handed out in order to the children that are present, at every (re)registration of the whole source
+  \cup If(~sh.c16off /\ ~sh.faultSeen /\ \E s \in sh.S :
+               /\ Kind(sh, s) = "comp" /\ sh.life[s] = "in" /\ sh.en[s] /\ ~sh.fuzzy[s]
+               /\ \E c \in 1..NCh(sh.decl[s]), i \in DOMAIN ev.epoll :
+                     /\ ~sh.childOff[s][c] /\ sh.decl[s].children[c].fd = "sock"
+                     /\ ev.epoll[i][1] = sh.decl[s].fds[c] /\ ev.epoll[i][1] \notin FuzzyFds(sh)
+                     /\ <<ev.epoll[i][5], ev.epoll[i][6]>> = KeyOf(sh, s)
+                     /\ ev.epoll[i][7] # Cardinality({d \in 1..(c - 1) : ~sh.childOff[s][d]}),
+          {<<"C16", "kernel_sub_key_differs_from_last_registration">>, <<"C20", "kernel_sub_key_differs_from_last_registration">>})
   \cup If(sh.cmpSnap /\ sh.lastSnap.valid
           /\ (\/ {e \in SnapEpoll6(sh.lastSnap) : e[1] \notin FuzzyFds(sh)} # {e \in SnapEpoll6(ev) : e[1] \notin FuzzyFds(sh)}
               \/ SnapDiffers([sh.lastSnap EXCEPT !.epoll = <<>>], [ev EXCEPT !.epoll = <<>>])),
